@@ -147,6 +147,12 @@ func buildWorld(r *rng.R, small bool) *world {
 	gated := &graphql.ObjectType{Name: "Gated", IsTypeOf: isTypeOf, RequiredFeatures: schema.NewFeatureSet("gate")}
 	u0 := &graphql.UnionType{Name: "AB", MemberTypes: []*graphql.ObjectType{o1, o2}}
 	u1 := &graphql.UnionType{Name: "BG", MemberTypes: []*graphql.ObjectType{o2, o3}}
+	// feature gating of implementations, union members and interfaces: Named and Tagged share only
+	// the gated object type; GG and GA share only it too; GI is an interface that needs the feature
+	tagged := &graphql.InterfaceType{Name: "Tagged"}
+	gi := &graphql.InterfaceType{Name: "GI", RequiredFeatures: schema.NewFeatureSet("gate")}
+	// (a union cannot have members that need more features than the union itself)
+	u2 := &graphql.UnionType{Name: "GG", MemberTypes: []*graphql.ObjectType{gated, o3}, RequiredFeatures: schema.NewFeatureSet("gate")}
 
 	// the global field pool: name -> definition (a fresh FieldDefinition per use so that the schema
 	// has no shared pointers the validator could confuse)
@@ -187,6 +193,17 @@ func buildWorld(r *rng.R, small bool) *world {
 			return &graphql.FieldDefinition{Type: o1, Arguments: args("x", graphql.IntType)}
 		},
 		"query": func() *graphql.FieldDefinition { return &graphql.FieldDefinition{Type: o0} },
+		"tagged": func() *graphql.FieldDefinition { return &graphql.FieldDefinition{Type: tagged} },
+		// interface fields with arguments / of composite type, for overlapping fields whose parents are
+		// an interface and an implementing object type
+		"nick":   func() *graphql.FieldDefinition { return &graphql.FieldDefinition{Type: graphql.StringType, Arguments: args("n", graphql.IntType)} },
+		"friend": func() *graphql.FieldDefinition { return &graphql.FieldDefinition{Type: named, Arguments: args("n", graphql.IntType)} },
+		"gif": func() *graphql.FieldDefinition {
+			return &graphql.FieldDefinition{Type: gi, RequiredFeatures: schema.NewFeatureSet("gate")}
+		},
+		"gg": func() *graphql.FieldDefinition {
+			return &graphql.FieldDefinition{Type: u2, RequiredFeatures: schema.NewFeatureSet("gate")}
+		},
 		"gi": func() *graphql.FieldDefinition {
 			return &graphql.FieldDefinition{Type: graphql.IntType, RequiredFeatures: schema.NewFeatureSet("gate")}
 		},
@@ -201,8 +218,10 @@ func buildWorld(r *rng.R, small bool) *world {
 		}
 		return m
 	}
-	named.Fields = mk("name", "i")
+	named.Fields = mk("name", "i", "nick", "friend")
 	node.Fields = mk("id")
+	tagged.Fields = mk("id")
+	gi.Fields = mk("i")
 	// optional members, chosen per world
 	pick := func(base []string, optional ...string) []string {
 		out := append([]string(nil), base...)
@@ -213,15 +232,16 @@ func buildWorld(r *rng.R, small bool) *world {
 		}
 		return out
 	}
-	o0.Fields = mk(pick([]string{"i", "s", "arg", "req", "alpha", "oa", "named", "node", "ab", "cmp", "query"}, "b", "dfl", "flt", "bgs", "gammas", "beta", "li", "col", "gi", "gobj", "cu")...)
-	o1.Fields = mk(pick([]string{"name", "i", "id", "s", "beta", "arg", "oa"}, "req", "dfl", "ab", "query", "gammas", "col", "cmp", "gi")...)
-	o2.Fields = mk(pick([]string{"name", "i", "id", "alpha"}, "s", "arg", "li", "named", "bgs", "flt")...)
+	o0.Fields = mk(pick([]string{"i", "s", "arg", "req", "alpha", "oa", "named", "node", "ab", "cmp", "query", "tagged"}, "b", "dfl", "flt", "bgs", "gammas", "beta", "li", "col", "gi", "gobj", "cu", "gif", "gg")...)
+	o1.Fields = mk(pick([]string{"name", "i", "id", "s", "beta", "arg", "oa", "nick", "friend"}, "req", "dfl", "ab", "query", "gammas", "col", "cmp", "gi")...)
+	o2.Fields = mk(pick([]string{"name", "i", "id", "alpha", "nick", "friend"}, "s", "arg", "li", "named", "bgs", "flt")...)
 	o3.Fields = mk(pick([]string{"id", "i", "b"}, "s", "alpha", "node", "cu", "query")...)
-	gated.Fields = mk("i", "name", "id")
+	gated.Fields = mk("i", "name", "id", "nick", "friend")
 	o1.ImplementedInterfaces = []*graphql.InterfaceType{named, node}
 	o2.ImplementedInterfaces = []*graphql.InterfaceType{named, node}
-	o3.ImplementedInterfaces = []*graphql.InterfaceType{node}
-	gated.ImplementedInterfaces = []*graphql.InterfaceType{node}
+	o1.ImplementedInterfaces = []*graphql.InterfaceType{named, node, gi}
+	o3.ImplementedInterfaces = []*graphql.InterfaceType{node, tagged}
+	gated.ImplementedInterfaces = []*graphql.InterfaceType{node, named, tagged}
 	// twins: same name, different shape
 	o1.Fields["t"] = &graphql.FieldDefinition{Type: graphql.IntType}
 	o2.Fields["t"] = &graphql.FieldDefinition{Type: graphql.StringType}
@@ -246,7 +266,7 @@ func buildWorld(r *rng.R, small bool) *world {
 			Locations: []schema.DirectiveLocation{schema.DirectiveLocationField, schema.DirectiveLocationQuery, schema.DirectiveLocationFragmentDefinition, schema.DirectiveLocationInlineFragment},
 		},
 		"onFrag": {Locations: []schema.DirectiveLocation{schema.DirectiveLocationFragmentSpread, schema.DirectiveLocationFragmentDefinition, schema.DirectiveLocationMutation, schema.DirectiveLocationSubscription, schema.DirectiveLocationObject}},
-	}, AdditionalTypes: []graphql.NamedType{gated, size, opt, strict}}
+	}, AdditionalTypes: []graphql.NamedType{gated, size, opt, strict, tagged, gi, u2}}
 	if r.Chance(2, 3) {
 		def.Mutation = &graphql.ObjectType{Name: "Mutation", Fields: mk("i", "arg", "alpha", "req")}
 		w.HasMut = true
